@@ -41,6 +41,56 @@ def eval_in(fam, outer, inner):
                        lib.describe(got), '%s in %s expected %s' % (inner[0], outer[0], want))]
 
 
+MOVED_V = ((1, 2, -1), (0, 0, 3), (-2, 1, 0))
+ID3 = ((1, 0, 0), (0, 1, 0), (0, 0, 1))
+
+
+def eval_moved_in(fam, outer, inner):
+    """membership, then move the container in place (twice, thrice) and ask again with the candidate at
+    the translated position."""
+    g = X.Guard()
+    want = X.contains(outer, inner, g)
+    if not g.ok() or not (faces_hash_ok(outer) and faces_hash_ok(inner)):
+        return 'skip:guard', []
+    lo = lib.to_lib(outer)
+    lib.call(lambda: lib.to_lib(inner) in lo)
+    t = (0, 0, 0)
+    for i, v in enumerate(MOVED_V):
+        m = lib.call(lo.move, lib.V(v))
+        if isinstance(m, lib.Raised):
+            return 'moved', [Viol('C05|moved|%s|move-raises:%s' % (outer[0], m.cls), core.enc((outer, inner)), 'moved', repr(m), '')]
+        t = X.add(t, v)
+        li = lib.to_lib(X.xform(inner, ID3, 1, t))
+        for who, obj in (('receiver', lo), ('returned', m)):
+            got = lib.call(lambda: li in obj)
+            if got is not want:
+                return 'moved', [Viol('C05|moved|%s in %s|%s|%s-after-%d-in-place-moves' % (inner[0], outer[0], who, want, i + 1), core.enc((outer, inner)), want,
+                                      lib.describe(got), 'membership in the %s container after moving it in place %d times' % (who, i + 1))]
+    return 'moved|%s in %s|%s' % (inner[0], outer[0], want), []
+
+
+class MovedCands(Family):
+    def __init__(self, inner_family, step):
+        self.inner = inner_family
+        self.name = 'moved/' + inner_family.name
+        self.step = step
+        self.total = inner_family.total // step
+
+    def shards(self):
+        return self.inner.shards()
+
+    def scenes(self, shard):
+        for i, s in enumerate(self.inner.scenes(shard)):
+            if i % self.step == 0:
+                yield s
+
+    def eval(self, scene):
+        return eval_moved_in(self.name, scene[0], scene[1])
+
+    def nontrivial(self, cell):
+        return cell.endswith('True')
+
+
 class Pairs(Family):
     def __init__(self, name, pose, outers, inners, chunk=8):
         self.name = '%s/%s' % (name, pose.name)
@@ -154,6 +204,9 @@ def families(tier):
                           [A.body(b) for b in A.POLYGONS]))
         for b in bodies:
             fams.append(BodyCands(b, pose, tier))
+    for b in (('hexagon', 'tetrahedron') if tier == 'quick' else bodies):
+        fams.append(MovedCands(BodyCands(b, A.P1, tier), 3 if tier == 'quick' else 1))
+    fams.append(MovedCands(Pairs('linelike-in-plane', A.P1, planes, ll['Segment'] + ll['HalfLine'], chunk=4), 11 if tier == 'quick' else 3))
     # oblique bodies placed so that one vertex (hence >= 3 face planes) sits exactly at the origin
     for b in (['tetrahedron', 'cut-cube', 'hexagon'] if tier == 'quick' else ['tetrahedron', 'cut-cube', 'hexagon', 'pyramid', 'prism', 'octahedron', 'triangle']):
         K0 = A.body(b)
@@ -179,4 +232,6 @@ def run(tier, seed):
 
 def replay(family, scene):
     o, x = core.dec(scene)
+    if family.startswith('moved'):
+        return eval_moved_in(family, o, x)[1]
     return eval_in(family, o, x)[1]
